@@ -27,7 +27,7 @@ RULES={
 }
 RULES['C05']=[('KF-C05-PANIC', r'predicate-panic'),('KF-C05-COMPLEXCONST', r'i\)|[0-9]i\b|asymmetric'),('KF-C05-CONSTREPR', r'AssignableConv|assignc|assign-'),('KF-C05-COMPARABLE', r'ComparableTo|compare: |switchcase: '),('KF-C05-CONV', r'conv: |ConvertibleTo'),('KF-C05-OTHER', r'.')]
 RULES['C02']=[('KF-C02-CONSTBOOL', r'dump-diff'),('KF-C02-MINMAX', r'min\(|max\(|inferred type'),('KF-C02-COMPLEX', r'[0-9]i\b|complex|i\)'),('KF-C02-SHIFT', r'<<|>>|shift'),('KF-C02-UNSAFE', r'unsafe\.'),('KF-C02-NILCMP', r'== nil|!= nil|nil ==|nil !='),('KF-C02-OTHER', r'.')]
-RULES['C03']=[('KF-C03-UNTYPEDRESULT', r'builder=untyped'),('KF-C03-BOOLRESULT', r'builder=bool go=untyped bool'),('KF-C03-APPEND', r'append\('),('KF-C03-OTHER', r'.')]
+RULES['C03']=[('KF-C03-ZEROCONV', r'emitted-type: (0|""|false) builder='),('KF-C03-UNTYPEDRESULT', r'builder=untyped'),('KF-C03-BOOLRESULT', r'builder=bool go=untyped bool'),('KF-C03-APPEND', r'append\('),('KF-C03-OTHER', r'.')]
 RULES['C04']=[('KF-C04-NOTCONST', r'not a constant expression'),('KF-C04-FOLDEDINVALID', r'rejected by go/types'),('KF-C04-VALUE', r'^cval|cval: '),('KF-C04-OTHER', r'.')]
 RULES['C17']=[('KF-C17-OTHER', r'.')]
 rules=[(f,re.compile(r)) for f,r in RULES[ID]]
